@@ -22,10 +22,12 @@ theorem hll_count_float (cmp : Float → Float → Option Cmp) (s : Hll.St) (ps 
     countWith cmp s =
       (let m := Float.ofNat s.regs.size
        let e := am s.regs.size * m * m * (1 / ps.foldl (· + ·) 0)
-       (if e ≤ 5 * m then estimateBias cmp s.b e else some 0).map fun bv =>
-         hll_count (α := Float) s.regs.size (am s.regs.size) (ps.foldl (· + ·) 0) bv (zeros s) thr) := by
+       (if e ≤ 5 * m then estimateBias cmp s.b e else some 0).bind fun bv =>
+         (hll_count (α := Float) s.regs.size (am s.regs.size) (ps.foldl (· + ·) 0) bv (zeros s) thr).ret?) := by
   unfold countWith
   simp only [hps, hthr]
+  have hz : Array.foldl (fun c r => if (r == 0) = true then c + 1 else c) 0 s.regs = zeros s := rfl
+  simp only [hz]
   by_cases h : am s.regs.size * Float.ofNat s.regs.size * Float.ofNat s.regs.size * (1 / ps.foldl (· + ·) 0) ≤
       5 * Float.ofNat s.regs.size
   · simp only [h, if_true]
@@ -33,15 +35,23 @@ theorem hll_count_float (cmp : Float → Float → Option Cmp) (s : Hll.St) (ps 
         (1 / ps.foldl (· + ·) 0)) with
     | none => rfl
     | some bv =>
-      simp only [Option.map_some]
+      simp only [Option.map_some, Option.bind_some]
       have h' : (am s.regs.size * (KOps.ofNat s.regs.size : Float) * (KOps.ofNat s.regs.size : Float) *
           ((KOps.ofNat 1 : Float) / ps.foldl (· + ·) 0)) ≤ (KOps.ofNat 5 : Float) * (KOps.ofNat s.regs.size : Float) := h
-      simp only [hll_count, hll_linear_counting, zeros, h', if_true, ite_some_some]
-      rfl
-  · simp only [h, if_false, Option.map_some]
+      by_cases hv : zeros s = 0
+      all_goals
+        simp only [hll_count, hll_linear_counting, hv, h', ne_eq, not_true_eq_false, not_false_eq_true, decide_true, decide_false,
+          Bool.false_eq_true, if_true, if_false, decide_eq_true_eq, Flow.ite_bind, Flow.bind_ret,
+          Flow.bind_cont, Flow.ite_ret?, Flow.ret?_ret, Flow.ret?_cont]
+        rfl
+  · simp only [h, if_false, Option.map_some, Option.bind_some]
     have h' : ¬ (am s.regs.size * (KOps.ofNat s.regs.size : Float) * (KOps.ofNat s.regs.size : Float) *
         ((KOps.ofNat 1 : Float) / ps.foldl (· + ·) 0)) ≤ (KOps.ofNat 5 : Float) * (KOps.ofNat s.regs.size : Float) := h
-    simp only [hll_count, hll_linear_counting, zeros, h', if_false, ite_some_some]
-    rfl
+    by_cases hv : zeros s = 0
+    all_goals
+      simp only [hll_count, hll_linear_counting, hv, h', ne_eq, not_true_eq_false, not_false_eq_true, decide_true, decide_false,
+        Bool.false_eq_true, if_true, if_false, decide_eq_true_eq, Flow.ite_bind,
+        Flow.bind_ret, Flow.bind_cont, Flow.ite_ret?, Flow.ret?_ret, Flow.ret?_cont]
+      rfl
 
 end Pds.KernelTie
